@@ -563,6 +563,35 @@ def run(ctx):
              'exit; a raising handler does not skip namespaces', floor=6)
     for fam in SA:
         r2_exception_safe(ctx, fam)
+    ctx.rule('C11.R7', 'asyncio: a CancelledError raised by an application '
+             'coroutine does not abandon the transport-loss loop (it is '
+             'contained where the handler is awaited; `except Exception` in '
+             'the loop does not catch it)', floor=2)
+    from .c15 import cancelled_contained_from
+    top = ctx.model.method('AsyncServer', '_handle_eio_disconnect')
+    loop_catches = any(
+        isinstance(t, ast.Try) and any(
+            (h.type is None or 'BaseException' in U(h.type) or
+             'CancelledError' in U(h.type)) and
+            not any(isinstance(y, ast.Raise) for y in ast.walk(h))
+            for h in t.handlers) and any(
+            isinstance(c, ast.Call) and U(c.func).endswith(
+                '_handle_disconnect') for c in ast.walk(t))
+        for t in ast.walk(top.node))
+    k = 2 if loop_catches else cancelled_contained_from(
+        ctx, top, 'is not an Exception: it leaves the loop over the '
+        'namespaces of the ending transport, and the namespaces not yet '
+        'reached keep the client in their rooms, with its callbacks, for '
+        'ever', only=lambda f: f.cls is not None and f.cls.name in (
+            'AsyncServer', 'AsyncNamespace', 'BaseServer'))
+    if loop_catches:
+        ctx.ok('AsyncServer._handle_eio_disconnect', 'the per-namespace '
+               'handler of the loop catches CancelledError itself',
+               where(top))
+        ctx.ok('AsyncServer._handle_eio_disconnect', 'same', where(top))
+    if k < 2:
+        raise AnalysisError('C11.R7 found only %d awaited application '
+                            'coroutines on the transport-loss path' % k)
     ctx.rule('C11.R3', 'emptied rooms / namespaces / pending lists are '
              'collected', floor=3)
     r3_collect(ctx)
